@@ -10,10 +10,10 @@ EXTENDS Integers, FiniteSets, TLC, Json
 CONSTANTS Types, Mode, NCase
 VARIABLES c, k
 vars == <<c, k>>
-Order == [plane |-> 0, sphere |-> 2, capsule |-> 3, ellipsoid |-> 4, cylinder |-> 5, box |-> 6, mesh |-> 7]   \* mesh: a random convex polytope
+Order == [plane |-> 0, hfield |-> 1, sphere |-> 2, capsule |-> 3, ellipsoid |-> 4, cylinder |-> 5, box |-> 6, mesh |-> 7]   \* mesh: a random convex polytope
 Poses == {"separated", "margin", "touching", "shallow", "deep", "engulfed"}
 \* engulfed: the centre of a sphere lies inside the other geom (the analytic routines then have to choose the nearer face / cap / side)
-PoseFor(a, b) == LET p == RandomElement(Poses) IN IF p = "engulfed" /\ ~("sphere" \in {a, b} /\ "plane" \notin {a, b}) THEN "deep" ELSE p
+PoseFor(a, b) == LET p == RandomElement(Poses) IN IF p = "engulfed" /\ ~("sphere" \in {a, b} /\ "plane" \notin {a, b} /\ "hfield" \notin {a, b}) THEN "deep" ELSE p
 Max(a, b) == IF a >= b THEN a ELSE b
 \* expected contact parameters (condim, friction as integers in tenths)
 MixCondim(x) == IF x.explicit THEN x.pair.condim ELSE IF x.g1.priority > x.g2.priority THEN x.g1.condim ELSE IF x.g2.priority > x.g1.priority THEN x.g2.condim ELSE Max(x.g1.condim, x.g2.condim)
@@ -26,14 +26,14 @@ ExpectContact(x) == CASE x.pose = "separated" -> FALSE
 Geom(u) == [condim |-> RandomElement({1, 3, 4, 6}), priority |-> RandomElement({0, 0, 1}), friction |-> RandomElement({3, 7, 12}), margin |-> RandomElement({0, 0, 5, 8}),
             solmix |-> RandomElement({1, 3})]
 RandCase(u) ==
-  LET a == RandomElement(Types)  b == RandomElement(Types \ {"plane"}) IN
+  LET a == RandomElement(Types)  b == RandomElement(Types \ {"plane", "hfield"}) IN   \* planes and height fields are static: never the moving geom
   [t1 |-> IF Order[a] <= Order[b] THEN a ELSE b, t2 |-> IF Order[a] <= Order[b] THEN b ELSE a, pose |-> PoseFor(a, b), g1 |-> Geom(1), g2 |-> Geom(2),
    explicit |-> RandomElement({FALSE, FALSE, FALSE, TRUE}), pair |-> [condim |-> RandomElement({1, 3, 4}), friction |-> RandomElement({5, 9}), margin |-> RandomElement({0, 6})]]
 \* Mode "enum": every type pair x every pose class once, with plain parameters (the replay draws several geometries for each): what a sample may miss
 G0 == [condim |-> 3, priority |-> 0, friction |-> 7, margin |-> 0, solmix |-> 1]
 EnumCases == {[t1 |-> a, t2 |-> b, pose |-> p, g1 |-> G0, g2 |-> G0, explicit |-> FALSE, pair |-> [condim |-> 3, friction |-> 5, margin |-> 0]] :
-                a \in Types, b \in Types \ {"plane"}, p \in Poses} 
-EnumOK(x) == Order[x.t1] <= Order[x.t2] /\ (x.pose = "engulfed" => ("sphere" \in {x.t1, x.t2} /\ "plane" \notin {x.t1, x.t2}))
+                a \in Types, b \in Types \ {"plane", "hfield"}, p \in Poses} 
+EnumOK(x) == Order[x.t1] <= Order[x.t2] /\ (x.pose = "engulfed" => ("sphere" \in {x.t1, x.t2} /\ "plane" \notin {x.t1, x.t2} /\ "hfield" \notin {x.t1, x.t2}))
 Init == IF Mode = "enum" THEN c \in {x \in EnumCases : EnumOK(x)} /\ k = 1 ELSE c = RandCase(0) /\ k = 1
 Next == Mode # "enum" /\ k < NCase /\ c' = RandCase(k) /\ k' = k + 1
 Spec == Init /\ [][Next]_vars
